@@ -20,6 +20,8 @@ M = {
     'x2t': '_ZN2au6detail22x_squared_plus_t_mod_nEmmm', 'absdiff': '_ZN2au6detail13absolute_diffEmm',
     'multiplicity': '_ZN2au6detail12multiplicityEmm', 'as_int': '_ZN2au6detail6as_intERKNS0_15LucasDParameterE',
     'increment_D': '_ZN2au6detail9incrementERNS0_15LucasDParameterE', 'find_prime_factor': '_ZN2au6detail17find_prime_factorEm',
+    'strong_lucas': '_ZN2au6detail12strong_lucasEm', 'is_perfect_square': '_ZN2au6detail17is_perfect_squareEm',
+    'find_first_D': '_ZN2au6detail39find_first_D_with_jacobi_symbol_neg_oneEm', 'baillie_psw': '_ZN2au6detail11baillie_pswEm',
     'jacobi': '_ZN2au6detail13jacobi_symbolElm', 'jacobi_pos': '_ZN2au6detail32jacobi_symbol_positive_numeratorEmmi',
     'is_prime': '_ZN2au6detail8is_primeEm', 'pollard': '_ZN2au6detail23find_pollard_rho_factorEm', 'gcd': '_ZN2au6detail3gcdEmm',
 }
@@ -64,6 +66,14 @@ CONTRACTS = {
                          loops={0: dict(invariant=['m_n_addr > 0 && m_m < 64 && m_n_addr <= (0xFFFFFFFFFFFFFFFFULL >> m_m) && m_factor_addr > 1'], decreases='m_n_addr')}),
     'as_int': dict(requires=['__CPROVER_is_fresh(v_D, 16)', 'v_D->f0 < 2147483648ULL && v_D->f1 <= 1'],
                    ensures=['(int)%s == ((v_D->f1 & 1) ? (int)v_D->f0 : -(int)v_D->f0)' % RV], assigns=''),
+    # ASSUMED contracts of callees that are outside deductive reach (number theory); their CALLERS are verified against them
+    'is_perfect_square': dict(requires=['1'], ensures=['1'], assigns=''),
+    'find_first_D': dict(requires=['(v_n & 1) == 1 && v_n > 1'], ensures=['%s.f0 < 2147483648ULL && %s.f1 <= 1' % (RV, RV)], assigns=''),
+    'strong_lucas': dict(requires=['v_n < 18446744073709551615ULL'],   # n + 1 must not wrap; baillie_psw reaches strong_lucas only when miller_rabin(2, n) is not COMPOSITE
+                         ensures=['%s <= 2' % RV], assigns='',
+                         loops={0: dict(invariant=['m_element.f0 < m_n_addr && m_element.f1 < m_n_addr && m_params.f0 < 64 && m_i <= m_params.f0 && m_D.f0 < 2147483648ULL && m_D.f1 <= 1 '
+                                                   '&& (m_n_addr & 1) == 1 && m_n_addr > 1'],
+                                        decreases='m_params.f0 - m_i', assigns='m_i, m_element, m_ref_tmp, m_agg_tmp14, m_retval')}),
     'gcd': dict(requires=['1'], ensures=['(v_a != 0 || v_b != 0) ? %s != 0 : %s == 0' % (RV, RV)], assigns='',
                 loops={0: dict(invariant=['(m_a_addr != 0 || m_b_addr != 0) == (__CPROVER_loop_entry(m_a_addr) != 0 || __CPROVER_loop_entry(m_b_addr) != 0)'],
                                decreases='m_b_addr')}),
@@ -73,7 +83,7 @@ CONTRACTS = {
 
 
 def D(id, target, harness, replace=(), contracts=None, wrap=True, must=('postcondition',), budget=400, contract_text='', fns=()):
-    cs = {M[k]: CONTRACTS[k] for k in ([target] + list(replace))}
+    cs = {M[k]: CONTRACTS[k] for k in ([target] + list(replace)) if k in CONTRACTS}
     if contracts: cs.update(contracts)
     return Ob(id=id, prop='C12', group='C12', prelude=PRE, wrappers=WRAPS, inputs=[], body='', kind='D', promote=False, wrap=wrap, budget=budget,
               dfcc=dict(target=M[target], replace=[M[k] for k in replace], contracts=cs, harness=harness, must_have=list(must)),
@@ -177,6 +187,26 @@ def obligations(tier, seed):
                   contract='jacobi_symbol(a, n), n odd > 1: calls jacobi_symbol_positive_numerator exactly once with a numerator that is a residue of |a| below n (equal to |a| when |a| < n; that it is exactly |a| mod n is two symbolic 64-bit dividers no back end equates), modulus n, and start sign +1 for a >= 0 and '
                            '(-1/n) = (n mod 4 == 1 ? +1 : -1) for a < 0, and returns its result; no UB:*.  The positive-numerator routine itself stays ASSUMED',
                   functions_under_contract=('au::detail::jacobi_symbol',)))
+    obs.append(D('C12.callsites.strong_lucas', 'strong_lucas', '  uint64_t n;\n  f_%s(n);' % M['strong_lucas'],
+                 replace=('is_perfect_square', 'find_first_D', 'decompose', 'find_sl', 'double_sl'), must=('postcondition', 'precondition', 'step'),
+                 contract_text='strong_lucas(n), requires n < 2^64-1 (n+1 must not wrap): decompose(n+1), find_strong_lucas_element and double_strong_lucas_index are called within their '
+                               'preconditions on every path (BAD_INPUT guard included), loop invariant element < n, decreases s - i.  is_perfect_square and the Selfridge search '
+                               '(result D.mag < 2^31) are ASSUMED contracts', fns=('au::detail::strong_lucas',)))
+    # one concrete fact needed at baillie_psw's call of strong_lucas: 2^64-1 is rejected by the base-2 Miller-Rabin round (so n+1 never wraps in strong_lucas).
+    # Decided by running the real lowered code on that one input (all loops unwound on constants).
+    wmr = Wrapper('w_mr2_of', 'int32_t', [('uint64_t', 'n')], 'return (int)au::detail::miller_rabin(2u, n);')
+    obs.append(Ob(id='C12.fact.miller_rabin_2_rejects_2_64_minus_1', prop='C12', group='C12.fact', prelude=PRE, wrappers=[wmr], inputs=[],
+                  body='\n  CHECK(w_mr2_of(18446744073709551615ULL) == 0, "miller-rabin-base-2-says-COMPOSITE-for-2-to-the-64-minus-1");\n', unwind=70, budget=600,
+                  contract='miller_rabin(2, 2^64-1) == COMPOSITE (single concrete input; every loop and the mul_mod recursion unwound on constants, unwinding assertions on)',
+                  functions_under_contract=('au::detail::miller_rabin (one input)',)))
+    mr_c = dict(CONTRACTS['miller_rabin'])
+    mr_c['ensures'] = CONTRACTS['miller_rabin']['ensures'] + [] if __import__('os').environ.get('VF_TWIN_BPSW') else CONTRACTS['miller_rabin']['ensures'] + ['!(v_a == 2 && v_n == 18446744073709551615ULL) || %s == 0' % RV]   # the concrete fact above
+    mr_c.pop('loops', None)
+    obs.append(D('C12.callsites.baillie_psw', 'baillie_psw', '  uint64_t n;\n  f_%s(n);' % M['baillie_psw'], replace=('miller_rabin', 'strong_lucas'),
+                 contracts={M['baillie_psw']: dict(requires=['1'], ensures=['%s <= 2' % RV], assigns=''), M['miller_rabin']: mr_c}, must=('postcondition', 'precondition'),
+                 contract_text='baillie_psw(n), every n: miller_rabin and strong_lucas are called within their preconditions (strong_lucas never sees 2^64-1 because the base-2 round '
+                               'rejects it: fact obligation above); result is one of the three PrimeResult values.  That the answer is PROBABLY_PRIME exactly for primes is ASSUMED',
+                 fns=('au::detail::baillie_psw',)))
     hD = '  struct S_struct_au__detail__LucasDParameter *d;\n  f_%s(d);'
     obs.append(D('C12.contract.as_int', 'as_int', hD % M['as_int'], wrap=False,
                  contract_text='as_int(D): requires D.mag < 2^31; ensures +/- mag; the int multiplication does not overflow'))
